@@ -91,3 +91,57 @@ Check perm_dup_schema_refuted.
 Example C13_example : True.
 Proof. exact I. Qed.
 Check order_example.
+
+(** ** The sink: any io::Write schedule (model/SinkWrite.v = std's write_all loop over a scheduled sink; proofs/SinkWriteProofs.v).
+    The serializer reaches its writer only through write_all (Ser.write); whatever the split of its output into write_all calls
+    (in particular: buffered record fields flushed later, in schema order), a sink that takes a few bytes per call, interrupts, or
+    is a fixed-size slice receives exactly the bytes of the Vec result (or a proper prefix and an error); replacing ONE write_all by
+    a bare write (result discarded) loses bytes under a short-writing sink while still reporting Ok -- invisible to a Vec *)
+Require Import VectoredWrite SinkWrite SinkWriteProofs WriterScheduleProofs.
+Theorem C13_sink_schedule_independent :
+  forall (Sc : fschema) (slow : bool) (v : sval) (bs : bytes) (ps : list (list N)) (s : list wans) (sink : bytes) (n : nat),
+  to_datum Sc slow v = Ok bs ->
+  concat ps = bs ->
+  benign_schedule s ->
+  (forall p : list N, In p ps -> length p + interruptions s <= n) ->
+  exists s' : list wans, write_pieces_sched n s sink ps = (WOk, sink ++ bs, s') /\ benign_schedule s'.
+Proof. exact to_datum_schedule_independent. Qed.
+
+Theorem C13_sink_any_schedule :
+  forall (Sc : fschema) (slow : bool) (v : sval) (bs : bytes) (ps : list (list N)) (s : list wans) (sink : bytes)
+  (n : nat) (r : wres) (sink' : bytes) (s' : list wans),
+  to_datum Sc slow v = Ok bs ->
+  concat ps = bs ->
+  write_pieces_sched n s sink ps = (r, sink', s') ->
+  exists w rest : list N, sink' = sink ++ w /\ bs = w ++ rest /\ (r = WOk <-> rest = []).
+Proof. exact to_datum_any_schedule. Qed.
+
+Theorem C13_sink_fixed_slice :
+  forall (Sc : fschema) (slow : bool) (v : sval) (bs : bytes) (ps : list (list N)) (cap n : nat),
+  to_datum Sc slow v = Ok bs ->
+  concat ps = bs ->
+  2 <= n ->
+  exists s' : list wans,
+  write_pieces_sched n (slice_sched cap ps) [] ps = (if length bs <=? cap then (WOk, bs, s') else (WErrZero, firstn cap bs, s')).
+Proof. exact to_datum_into_slice. Qed.
+
+Theorem C13_write_once_defect_refuted :
+  forall (n : nat) (pre : list bytes) (p : list N) (post : list (list N)) (s : list wans) (sink : bytes) (k : N)
+  (sink1 : bytes) (s1 : list wans),
+  benign_schedule s ->
+  (forall q : list N, In q post -> length q + interruptions s <= n) ->
+  write_pieces_sched n s sink pre = (WOk, sink1, s1) ->
+  fst (next_ans s1) = Accept k ->
+  Nat.max (N.to_nat k) 1 < length p ->
+  exists s' : list wans,
+  write_mixed_sched n s sink (map (pair true) pre ++ (false, p) :: map (pair true) post) =
+  (WOk, sink ++ concat pre ++ firstn (Nat.max (N.to_nat k) 1) p ++ concat post, s') /\
+  length (sink ++ concat pre ++ firstn (Nat.max (N.to_nat k) 1) p ++ concat post) < length (sink ++ concat (pre ++ p :: post)) /\
+  sink ++ concat pre ++ firstn (Nat.max (N.to_nat k) 1) p ++ concat post <> sink ++ concat (pre ++ p :: post).
+Proof. exact defect_lacks_bytes. Qed.
+
+
+Check ser_writes_are_pieces.          (* any sequence of Ser.write calls = write_pieces on any benign sink *)
+Check ser_writes_budget_are_slice_pieces.
+Check record_flush_witness.            (* the record {a:int,b:string} presented as (b,a): flush through one bare write under [Accept 1] *)
+Check write_once_vec_invisible.
